@@ -27,7 +27,7 @@ structure GenCfg where
   /-- `true` (original emitter): for a pointer-typed map value / slice element the nil guard
       (compiler.go:677-680) runs before the `right == "nil"` test, and no such test is emitted at all for
       pointer-to-struct/collection elements: `Compare(==, "nil")` on such an element leaves the result untouched. -/
-  elemNilCmpMissing : Bool := true
+  elemNilCmpMissing : Bool := false   -- repaired in /repo (fix: Compare("nil") on a pointer-typed map value or slice element)
   /-- `true` (original emitter): Length/Capacity of a root map/slice type on the empty path report 0
       (`if len(path) == 0 { return nil }` precedes the branch that would report the root's own len). -/
   lcRootZero : Bool := false   -- repaired in /repo (fix: Length/Capacity of a root map or slice type)
@@ -44,44 +44,48 @@ structure GenCfg where
   /-- `true` (original emitter): in DeepEqual the nil test emitted for a pointer-to-scalar (or `*[]byte`)
       struct field looks at the parent's variables: nil-ness of such fields is never compared and a nil
       field is dereferenced (panic). -/
-  deqPtrLeafNilUnchecked : Bool := true
+  deqPtrLeafNilUnchecked : Bool := false   -- repaired in /repo (fix: DeepEqual tests the nil-ness of pointer-to-scalar fields on the field)
   /-- `true` (original emitter): the nil-ness test of a pointer-typed struct field is emitted before
       (outside) the `DEQMustCheck` wrapper, so an excluded / unlisted field still decides the result
       through its nil-ness. -/
-  deqNilBeforeMustCheck : Bool := true
+  deqNilBeforeMustCheck : Bool := false   -- repaired in /repo (fix: DeepEqualWithOptions lets an excluded pointer field differ in nil-ness)
   /-- `true` (original emitter): copying a root slice type assigns the grown slice to the local
       pointer variable (`l = &buf0`), so the destination stays as it was (Copy returns an empty slice). -/
-  copyRootSliceLost : Bool := true
+  copyRootSliceLost : Bool := false   -- repaired in /repo (fix: Copy/CopyTo of a root slice type left the destination unchanged)
   /-- `true` (original emitter): copying a non-empty root map type into a nil map stores into the nil map
       (`if l == nil` tests the root pointer, not the map). -/
-  copyRootMapPanics : Bool := true
+  copyRootMapPanics : Bool := false   -- repaired in /repo (fix: Copy of a non-empty root map type stored into a nil map)
   /-- `true` (original emitter): pointer-to-scalar fields/elements/map values (`l = r`) and pointer map
       keys are copied as pointers: the copy shares their targets with the source. -/
-  copyPtrShared : Bool := true
+  copyPtrShared : Bool := false   -- repaired in /repo (fix: Copy shared the targets of pointer-to-scalar fields, elements, map values and keys)
   /-- `true` (original emitter): a nil pointer-to-struct slice element or map value is dereferenced. -/
-  copyNilElemPanics : Bool := true
+  copyNilElemPanics : Bool := false   -- repaired in /repo (fix: Copy dereferenced a nil pointer-to-struct slice element or map value)
   /-- `true` (original emitter): `*string` fields, and `*[]byte` / `*[]T` / `*map` fields whose destination
       pointer (or inner map) is nil, are written through without allocation (nil dereference). -/
-  copyNilDestPanics : Bool := true
+  copyNilDestPanics : Bool := false   -- repaired in /repo (fix: Copy wrote through nil destination pointers)
   /-- `true` (original emitter): Reset dereferences nil pointer-to-scalar fields and nil pointer
       elements of slices. -/
   resetNilPtrPanics : Bool := false   -- repaired in /repo (fix: Reset dereferenced nil pointers)
   /-- `true` (original emitter): a non-nil pointer to an *empty* map or slice is not copied at all
       (`if len(*r) > 0 {` wraps the allocation): the copy holds a nil pointer where the source does not. -/
-  copyEmptyPtrCollDropped : Bool := true
+  copyEmptyPtrCollDropped : Bool := false   -- repaired in /repo (fix: Copy dropped a non-nil pointer to an empty map or slice)
   /-- `true` (original library): without a buffer AssignToStr renders a scalar *behind* the old content
       of the destination string (`Assign(&"abc", 5)` yields "abc5"). -/
   strAppendsOld : Bool := false   -- repaired in /repo (fix: AssignToStr without a buffer …)
-  /-- `true` (original emitter): in set mode the leaf assignment of a scalar slice element, and of a field
-      of a struct held by value in a map, is followed by `return nil` before the write-back
+  /-- `true` (original emitter): in set mode the leaf assignment of a field
+      of a struct held by value in a map is followed by `return nil` before the write-back
       (`s[i] = x`, `m[k] = x`): the update is made to a local copy and lost. -/
-  setLostUpdate : Bool := true
+  setLostUpdate : Bool := false   -- repaired in /repo (fix: Set below a struct or map held by value in a map was lost)
+  /-- `true` (original emitter): in set mode the leaf assignment of an element of a slice of scalars is
+      followed by `return nil` before the write-back `s[i] = x` (unreachable code): the update is lost.
+      (Split off `setLostUpdate` when it was repaired.) -/
+  setScalarElemLost : Bool := false   -- repaired in /repo (fix: Set on an element of a slice of scalars was lost)
   /-- `true` (original emitter): set mode stores into a nil map when the map is the root value or a
       map held as a map value (no auto-creation there): `assignment to entry in nil map`. -/
-  setNilMapStorePanics : Bool := true
+  setNilMapStorePanics : Bool := false   -- repaired in /repo (fix: Set stored into a nil map)
   /-- `true` (original emitter): set mode hands a nil pointer-to-scalar (or nil `*[]byte`) field to
       AssignBuf as the destination, which writes through it. -/
-  setNilLeafPtrPanics : Bool := true
+  setNilLeafPtrPanics : Bool := false   -- repaired in /repo (fix: Assign/AssignBuf dereferenced a nil destination pointer)
   /-- `true` (original emitter): Loop on a root *map* type returns at once for the empty path
       (only root slices are exempted from `if len(path) == 0 { return }`). -/
   loopRootMapSkipped : Bool := false   -- repaired in /repo (fix: Loop over a root map type …)
@@ -101,7 +105,7 @@ deriving Repr, Inhabited
 /-- The configuration that mirrors the tree as it is (flags flip when a `fix:` commit lands). -/
 def GenCfg.repo : GenCfg := {}
 /-- The tree as it was at the pinned commit (1c76ae3), before the `fix:` commits in /repo. -/
-def GenCfg.original : GenCfg := { GenCfg.repo with strAppendsOld := true, negIndexPanics := true, loopRootMapSkipped := true, loopNilKeyPanics := true, nilRootPanics := true, resetNilPtrPanics := true, fallThroughAlways := true, nilInterceptAnyDepth := true, assignNilSrcPanics := true, lcStructStopPanics := true, lcElemStopZero := true, lcRootZero := true, lcScalarSliceZero := true }
+def GenCfg.original : GenCfg := { GenCfg.repo with strAppendsOld := true, negIndexPanics := true, loopRootMapSkipped := true, loopNilKeyPanics := true, nilRootPanics := true, resetNilPtrPanics := true, fallThroughAlways := true, nilInterceptAnyDepth := true, assignNilSrcPanics := true, lcStructStopPanics := true, lcElemStopZero := true, lcRootZero := true, lcScalarSliceZero := true, elemNilCmpMissing := true, deqPtrLeafNilUnchecked := true, deqNilBeforeMustCheck := true, setNilLeafPtrPanics := true, setNilMapStorePanics := true, copyRootSliceLost := true, copyRootMapPanics := true, copyPtrShared := true, copyNilElemPanics := true, copyNilDestPanics := true, copyEmptyPtrCollDropped := true, setScalarElemLost := true, setLostUpdate := true }
 /-- Every listed defect repaired: the configuration the property theorems are proved for. -/
 def GenCfg.fixed : GenCfg where
   fallThroughAlways := false
@@ -123,6 +127,7 @@ def GenCfg.fixed : GenCfg where
   copyEmptyPtrCollDropped := false
   strAppendsOld := false
   setLostUpdate := false
+  setScalarElemLost := false
   setNilMapStorePanics := false
   setNilLeafPtrPanics := false
   loopRootMapSkipped := false
